@@ -105,17 +105,31 @@ Definition nocr := no 13.
 
 Definition hdr_ok (h : header) : bool :=
   no 58 (fst h) && nocr (fst h) && nocr (snd h) && beq (lstrip (snd h)) (snd h).
-Definition is_framing (n : bytes) : bool := ci_is k_cl n || ci_is k_te n || ci_is k_conn n.
+(* headers the application must leave to the server: Connection is passed through verbatim while the
+   close decision ignores it, Transfer-Encoding: chunked switches the writer to chunked regardless of
+   Content-Length -- with either the application can make the message lie about itself *)
+Definition is_framing (n : bytes) : bool := ci_is k_te n || ci_is k_conn n.
+
+(* an application that sets Content-Length itself on an iterator body (generator, file) is believed by
+   prepare(): the header must then be the number of bytes the iterator produces (irrelevant for HEAD) *)
+Definition cl_truthful (c : cfg) : bool :=
+  match app_cl c with
+  | None => true
+  | Some v => eff_sized c || head c ||
+              match undec v with Some n => n =? total_len (eff_chunks c) | None => false end
+  end.
 
 (* what the theorems assume about one response configuration *)
 Definition wf (c : cfg) : bool :=
   forallb hdr_ok (pre c) && forallb (fun h => negb (is_framing (fst h))) (pre c)
   && nocr (reason c) && (100 <=? status c) && (status c <=? 999)
-  && (negb (stream c) || negb (sized c) || match chunks c with [] => true | _ => false end).
+  && (negb (stream c) || negb (sized c) || match chunks c with [] => true | _ => false end)
+  && forallb (fun v => hdr_ok (str "Set-Cookie", v)) (cookies c)
+  && cl_truthful c.
 
 (* the body can only be delimited by closing the connection *)
 Definition until_close (c : cfg) : bool :=
-  negb (head c) && match clen c with Some _ => false | None => negb (chunked c) end.
+  negb (head c) && negb (has_cl c) && negb (chunked c).
 
 (* ------------------------------------------------------------------ list helpers *)
 Lemma beq_refl : forall a, beq a a = true.
@@ -258,7 +272,9 @@ Qed.
 Lemma wf_parts : forall c, wf c = true ->
   forallb hdr_ok (pre c) = true /\ forallb (fun h => negb (is_framing (fst h))) (pre c) = true
   /\ nocr (reason c) = true /\ (100 <=? status c) && (status c <=? 999) = true
-  /\ (negb (stream c) || negb (sized c) || match chunks c with [] => true | _ => false end) = true.
+  /\ (negb (stream c) || negb (sized c) || match chunks c with [] => true | _ => false end) = true
+  /\ forallb (fun v => hdr_ok (str "Set-Cookie", v)) (cookies c) = true
+  /\ cl_truthful c = true.
 Proof.
   intros c H. unfold wf in H.
   repeat (apply andb_true_iff in H; destruct H as [H ?]).
@@ -272,13 +288,30 @@ Proof.
   rewrite lstrip_id by (apply dec_no; lia). rewrite beq_refl. reflexivity.
 Qed.
 
+Lemma set_hdr_ok : forall k n hs, forallb hdr_ok hs = true -> forallb hdr_ok (set_hdr k (dec n) hs) = true.
+Proof.
+  intros k n hs. unfold set_hdr. induction hs as [|h hs IH]; intros H; [reflexivity|].
+  cbn [forallb map] in *. apply andb_true_iff in H. destruct H as [Hh Hhs].
+  rewrite IH by assumption. rewrite andb_true_r.
+  destruct (ci_is k (fst h)); [|assumption].
+  unfold hdr_ok in Hh. repeat (apply andb_true_iff in Hh; destruct Hh as [Hh ?]).
+  apply dec_hdr_ok; assumption.
+Qed.
+
+Lemma forallb_map : forall (A B : Type) (f : B -> bool) (g : A -> B) l,
+  forallb f (map g l) = forallb (fun x => f (g x)) l.
+Proof. intros. induction l; simpl; [reflexivity|]. rewrite IHl. reflexivity. Qed.
+
 Lemma out_headers_ok : forall c, wf c = true -> forallb hdr_ok (out_headers c) = true.
 Proof.
-  intros c H. apply wf_parts in H. destruct H as [Hpre _].
-  unfold out_headers. repeat rewrite forallb_app. rewrite Hpre. cbn [andb].
+  intros c H. apply wf_parts in H. destruct H as [Hpre [_ [_ [_ [_ [Hck _]]]]]].
+  unfold out_headers. repeat rewrite forallb_app.
   repeat (apply andb_true_iff; split).
+  - destruct (eff_sized c); [apply set_hdr_ok|]; assumption.
   - destruct (lookup k_ct (pre c)); reflexivity.
-  - destruct (clen c); [|reflexivity]. cbn [forallb]. rewrite dec_hdr_ok; reflexivity.
+  - destruct (app_cl c); [reflexivity|]. destruct (eff_sized c); [|reflexivity].
+    cbn [forallb]. rewrite dec_hdr_ok; reflexivity.
+  - rewrite forallb_map. exact Hck.
   - destruct (chunked c); reflexivity.
   - destruct (v11 c), (close1 c); reflexivity.
 Qed.
@@ -290,37 +323,68 @@ Proof.
   cbn [app find]. destruct (ci_is k (fst h)); [reflexivity | exact IH].
 Qed.
 
-Lemma lookup_none : forall k hs, forallb (fun h => negb (ci_is k (fst h))) hs = true -> lookup k hs = None.
+Definition absent (k : bytes) (hs : list header) : bool := forallb (fun h => negb (ci_is k (fst h))) hs.
+
+Lemma lookup_none : forall k hs, absent k hs = true -> lookup k hs = None.
 Proof.
-  intros k hs H. unfold lookup. induction hs as [|h hs IH]; [reflexivity|].
+  intros k hs H. unfold lookup, absent in *. induction hs as [|h hs IH]; [reflexivity|].
   cbn [forallb] in H. apply andb_true_iff in H. destruct H as [H1 H2].
   apply negb_true_iff in H1. cbn [find]. rewrite H1. apply IH. assumption.
 Qed.
 
-Lemma pre_no_framing : forall c, wf c = true ->
-  lookup k_cl (pre c) = None /\ lookup k_te (pre c) = None /\ lookup k_conn (pre c) = None.
+Lemma absent_set_hdr : forall k k' v hs, absent k (set_hdr k' v hs) = absent k hs.
 Proof.
-  intros c H. apply wf_parts in H. destruct H as [_ [H _]].
-  repeat split; apply lookup_none; (eapply forallb_forall; intros h Hin;
-    eapply forallb_forall in H; [|exact Hin]); unfold is_framing in H;
-    apply negb_true_iff in H; apply orb_false_iff in H; destruct H as [H H3];
-    apply orb_false_iff in H; destruct H as [H1 H2]; apply negb_true_iff; assumption.
+  intros. unfold absent, set_hdr. induction hs as [|h hs IH]; [reflexivity|].
+  cbn [map forallb]. rewrite IH. destruct (ci_is k' (fst h)); reflexivity.
 Qed.
 
-Lemma lookup_cl_out : forall c, wf c = true ->
-  lookup k_cl (out_headers c) = match clen c with Some n => Some (dec n) | None => None end.
+Lemma lookup_set_hdr : forall k v hs,
+  lookup k (set_hdr k v hs) = match lookup k hs with Some _ => Some v | None => None end.
 Proof.
-  intros c H. destruct (pre_no_framing c H) as [H1 _].
-  unfold out_headers. repeat rewrite lookup_app. rewrite H1.
-  destruct (lookup k_ct (pre c)), (clen c), (chunked c), (v11 c), (close1 c); reflexivity.
+  intros. unfold lookup, set_hdr. induction hs as [|h hs IH]; [reflexivity|].
+  cbn [map find]. destruct (ci_is k (fst h)) eqn:E; cbn [fst]; rewrite E; [reflexivity | exact IH].
+Qed.
+
+Lemma lookup_cookies : forall k l, ci_is k (str "Set-Cookie") = false ->
+  lookup k (map (fun v => (str "Set-Cookie", v)) l) = None.
+Proof.
+  intros k l H. apply lookup_none. unfold absent. rewrite forallb_map. cbn [fst]. rewrite H.
+  induction l; simpl; auto.
+Qed.
+
+Lemma pre_no_framing : forall c, wf c = true -> absent k_te (pre c) = true /\ absent k_conn (pre c) = true.
+Proof.
+  intros c H. apply wf_parts in H. destruct H as [_ [H _]].
+  split; (eapply forallb_forall; intros h Hin;
+    eapply forallb_forall in H; [|exact Hin]); unfold is_framing in H;
+    apply negb_true_iff in H; apply orb_false_iff in H; destruct H as [H1 H2];
+    apply negb_true_iff; assumption.
+Qed.
+
+Lemma pre_part_none : forall c k v, absent k (pre c) = true ->
+  lookup k (if eff_sized c then set_hdr k_cl v (pre c) else pre c) = None.
+Proof.
+  intros c k v H. apply lookup_none. destruct (eff_sized c); [rewrite absent_set_hdr|]; assumption.
+Qed.
+
+Lemma lookup_cl_out : forall c, lookup k_cl (out_headers c) = cl_hdr c.
+Proof.
+  intros c. unfold out_headers, cl_hdr, app_cl. repeat rewrite lookup_app.
+  rewrite lookup_cookies by reflexivity.
+  destruct (eff_sized c).
+  - rewrite lookup_set_hdr. destruct (lookup k_cl (pre c)); [reflexivity|].
+    destruct (lookup k_ct (pre c)); reflexivity.
+  - destruct (lookup k_cl (pre c)); [reflexivity|].
+    destruct (lookup k_ct (pre c)), (chunked c), (v11 c), (close1 c); reflexivity.
 Qed.
 
 Lemma lookup_te_out : forall c, wf c = true ->
   lookup k_te (out_headers c) = if chunked c then Some (str "chunked") else None.
 Proof.
-  intros c H. destruct (pre_no_framing c H) as [_ [H1 _]].
-  unfold out_headers. repeat rewrite lookup_app. rewrite H1.
-  destruct (lookup k_ct (pre c)), (clen c), (chunked c), (v11 c), (close1 c); reflexivity.
+  intros c H. destruct (pre_no_framing c H) as [H1 _].
+  unfold out_headers. repeat rewrite lookup_app. rewrite pre_part_none by assumption.
+  rewrite lookup_cookies by reflexivity.
+  destruct (lookup k_ct (pre c)), (app_cl c), (eff_sized c), (chunked c), (v11 c), (close1 c); reflexivity.
 Qed.
 
 Lemma lookup_conn_out : forall c, wf c = true ->
@@ -328,9 +392,10 @@ Lemma lookup_conn_out : forall c, wf c = true ->
   if v11 c then (if close1 c then Some (str "close") else None)
   else (if close1 c then None else Some (str "Keep-Alive")).
 Proof.
-  intros c H. destruct (pre_no_framing c H) as [_ [_ H1]].
-  unfold out_headers. repeat rewrite lookup_app. rewrite H1.
-  destruct (lookup k_ct (pre c)), (clen c), (chunked c), (v11 c), (close1 c); reflexivity.
+  intros c H. destruct (pre_no_framing c H) as [_ H1].
+  unfold out_headers. repeat rewrite lookup_app. rewrite pre_part_none by assumption.
+  rewrite lookup_cookies by reflexivity.
+  destruct (lookup k_ct (pre c)), (app_cl c), (eff_sized c), (chunked c), (v11 c), (close1 c); reflexivity.
 Qed.
 
 (* ------------------------------------------------------------------ chunked bodies *)
@@ -379,11 +444,15 @@ Lemma parse_head_ok : forall c B, wf c = true ->
     | Some (b, r2) => Some (mkresp c b (close1 c), r2)
     | None => None
     end
-  else match clen c with
-       | Some n => match take (N.to_nat n) B with
-                   | Some (b, r2) => Some (mkresp c b (close1 c), r2)
-                   | None => None
-                   end
+  else match cl_hdr c with
+       | Some v =>
+           match undec v with
+           | None => None
+           | Some n => match take (N.to_nat n) B with
+                       | Some (b, r2) => Some (mkresp c b (close1 c), r2)
+                       | None => None
+                       end
+           end
        | None => Some (mkresp c B true, [])
        end.
 Proof.
@@ -396,7 +465,7 @@ Proof.
   rewrite parse_headers_ok.
   2:{ apply out_headers_ok; assumption. }
   2:{ rewrite app_length. pose proof (concat_hlines_length (out_headers c)). lia. }
-  rewrite lookup_conn_out, lookup_te_out, lookup_cl_out by assumption.
+  rewrite lookup_conn_out, lookup_te_out by assumption. rewrite lookup_cl_out.
   unfold nobody_client, mkresp.
   destruct (head c || ((100 <=? status c) && (status c <? 200) || (status c =? 204) || (status c =? 304))) eqn:E1.
   - replace (head c || (100 <=? status c) && (status c <? 200) || (status c =? 204) || (status c =? 304))
@@ -407,8 +476,9 @@ Proof.
     destruct (chunked c).
     + destruct (parse_chunks (S (length B)) B) as [[b r2]|]; [|destruct (v11 c), (close1 c); reflexivity].
       destruct (v11 c), (close1 c); reflexivity.
-    + destruct (clen c) as [n|].
-      * rewrite undec_dec. destruct (take (N.to_nat n) B) as [[b r2]|]; destruct (v11 c), (close1 c); reflexivity.
+    + destruct (cl_hdr c) as [v|].
+      * destruct (undec v) as [n|]; [|reflexivity].
+        destruct (take (N.to_nat n) B) as [[b r2]|]; destruct (v11 c), (close1 c); reflexivity.
       * destruct (v11 c), (close1 c); reflexivity.
 Qed.
 
@@ -421,7 +491,7 @@ Definition body_wire (c : cfg) : bytes :=
 
 Lemma stream_not_sized : forall c, wf c = true -> eff_stream c && truthy c = true -> eff_sized c = false.
 Proof.
-  intros c H Hs. apply wf_parts in H. destruct H as [_ [_ [_ [_ H]]]].
+  intros c H Hs. apply wf_parts in H. destruct H as [_ [_ [_ [_ [H _]]]]].
   unfold eff_stream, truthy, eff_sized, eff_chunks in *.
   destruct (nobody_status (status c)), (stream c), (sized c), (chunks c); simpl in *; congruence.
 Qed.
@@ -451,7 +521,7 @@ Proof. intros c Hh. unfold respond. rewrite Hh. reflexivity. Qed.
 Lemma nobody_client_status : forall s, nobody_client s = true -> nobody_status s = true.
 Proof. intros s. unfold nobody_client, nobody_status. lia. Qed.
 
-Lemma close1_until : forall c, clen c = None -> chunked c = false -> head c = false -> close1 c = true.
+Lemma close1_until : forall c, has_cl c = false -> chunked c = false -> head c = false -> close1 c = true.
 Proof.
   intros c H1 H2 Hh. unfold close1, chunked in *. rewrite H1 in *. rewrite Hh in *.
   destruct (status c =? 413); [reflexivity|]. destruct (v11 c); simpl in *; congruence.
@@ -463,14 +533,23 @@ Proof.
   cbn [map concat]. rewrite app_length. rewrite frame_eq. rewrite app_length. simpl. lia.
 Qed.
 
-Lemma clen_nobody : forall c, nobody_status (status c) = true -> clen c = Some 0 /\ eff_chunks c = [].
-Proof. intros c H. unfold clen, eff_sized, eff_chunks. rewrite H. split; reflexivity. Qed.
-
-Lemma clen_some : forall c n, clen c = Some n -> n = N.of_nat (length (concat (eff_chunks c))) /\ chunked c = false.
+Lemma cl_nobody : forall c, nobody_status (status c) = true ->
+  cl_hdr c = Some (dec 0) /\ eff_chunks c = [] /\ chunked c = false.
 Proof.
-  intros c n H. split.
-  - unfold clen in H. destruct (eff_sized c); [|discriminate]. inversion H. apply total_len_concat.
-  - unfold chunked. rewrite H. reflexivity.
+  intros c H. unfold chunked, has_cl, cl_hdr, eff_sized, eff_chunks. rewrite H. repeat split; reflexivity.
+Qed.
+
+(* whatever Content-Length header ends up on a non-HEAD response states the number of body bytes *)
+Lemma cl_len : forall c v, wf c = true -> head c = false -> cl_hdr c = Some v ->
+  undec v = Some (N.of_nat (length (concat (eff_chunks c)))) /\ chunked c = false.
+Proof.
+  intros c v H Hh Hv. split.
+  - rewrite <- total_len_concat. unfold cl_hdr in Hv. destruct (eff_sized c) eqn:Es.
+    + inversion Hv. apply undec_dec.
+    + apply wf_parts in H. destruct H as [_ [_ [_ [_ [_ [_ H]]]]]].
+      unfold cl_truthful in H. rewrite Hv, Es, Hh in H. cbn [orb] in H.
+      destruct (undec v) as [n|]; [|discriminate]. apply N.eqb_eq in H. congruence.
+  - unfold chunked, has_cl. rewrite Hv. reflexivity.
 Qed.
 
 (* the central statement: the independent client recovers status, headers, body and close announcement,
@@ -487,8 +566,8 @@ Proof.
     assert (Hexp : mkresp c (concat (eff_chunks c)) (close1 c) = expected c)
       by (unfold mkresp, expected; rewrite Hh; reflexivity).
     destruct (nobody_client (status c)) eqn:En.
-    + apply nobody_client_status in En. destruct (clen_nobody c En) as [Hc Hch].
-      unfold body_wire. destruct (clen_some c 0 Hc) as [_ Hck]. rewrite Hck, Hch. cbn [concat app].
+    + apply nobody_client_status in En. destruct (cl_nobody c En) as [_ [Hch Hck]].
+      unfold body_wire. rewrite Hck, Hch. cbn [concat app].
       rewrite <- Hexp, Hch. reflexivity.
     + unfold body_wire. destruct (chunked c) eqn:Ech.
       * rewrite <- app_assoc. rewrite parse_chunks_ok.
@@ -497,10 +576,11 @@ Proof.
         -- apply filter_nonempty_all.
         -- repeat rewrite app_length.
            pose proof (frames_length (filter nonempty (body_pieces c))). lia.
-      * destruct (clen c) as [n|] eqn:Ecl.
-        -- destruct (clen_some c n Ecl) as [Hn _]. rewrite Hn, Nat2N.id, take_app. rewrite Hexp. reflexivity.
-        -- rewrite Hu by (unfold until_close; rewrite Hh, Ecl, Ech; reflexivity).
-           rewrite app_nil_r. rewrite <- Hexp. rewrite (close1_until c Ecl Ech Hh). reflexivity.
+      * destruct (cl_hdr c) as [v|] eqn:Ecl.
+        -- destruct (cl_len c v H Hh Ecl) as [Hn _]. rewrite Hn, Nat2N.id, take_app. rewrite Hexp. reflexivity.
+        -- assert (Hcl : has_cl c = false) by (unfold has_cl; rewrite Ecl; reflexivity).
+           rewrite Hu by (unfold until_close; rewrite Hh, Hcl, Ech; reflexivity).
+           rewrite app_nil_r. rewrite <- Hexp. rewrite (close1_until c Hcl Ech Hh). reflexivity.
 Qed.
 
 (* ------------------------------------------------------------------ consequences *)
@@ -535,25 +615,28 @@ Proof.
   - destruct (head c) eqn:Hh.
     + unfold wire. rewrite respond_head by assumption. cbn [concat]. apply app_nil_r.
     + destruct (respond_form c H Hh) as [_ [Hw _]]. rewrite Hw.
-      destruct (clen_nobody c Hn) as [Hc Hch]. destruct (clen_some c 0 Hc) as [_ Hck].
+      destruct (cl_nobody c Hn) as [_ [Hch Hck]].
       unfold body_wire. rewrite Hck, Hch. apply app_nil_r.
 Qed.
 
 Lemma close_wish_honoured : forall c, wf c = true -> close0 c = true -> closed c = true.
 Proof.
   intros c H H0. rewrite closed_close1 by assumption. unfold close1. rewrite H0.
-  destruct (status c =? 413); [reflexivity|]. destruct (clen c); [reflexivity|].
+  destruct (status c =? 413); [reflexivity|]. destruct (has_cl c); [reflexivity|].
   destruct (v11 c && negb (head c)); reflexivity.
 Qed.
 
 Lemma keep_alive_kept : forall c, wf c = true -> close0 c = false -> status c <> 413 ->
-  eff_sized c = true \/ (v11 c = true /\ head c = false) -> closed c = false.
+  has_cl c = true \/ (v11 c = true /\ head c = false) -> closed c = false.
 Proof.
-  intros c H H0 Hs Hd. rewrite closed_close1 by assumption. unfold close1, clen. rewrite H0.
+  intros c H H0 Hs Hd. rewrite closed_close1 by assumption. unfold close1. rewrite H0.
   apply N.eqb_neq in Hs. rewrite Hs.
   destruct Hd as [Hd|[Hv Hh]]; [rewrite Hd; reflexivity|].
-  rewrite Hv, Hh. destruct (eff_sized c); reflexivity.
+  rewrite Hv, Hh. destruct (has_cl c); reflexivity.
 Qed.
+
+Lemma sized_has_cl : forall c, eff_sized c = true -> has_cl c = true.
+Proof. intros c H. unfold has_cl, cl_hdr. rewrite H. reflexivity. Qed.
 
 (* requests on one connection: every response but the last leaves the connection open *)
 Fixpoint conn_ok (cs : list cfg) : bool :=
@@ -566,7 +649,7 @@ Lemma open_not_until_close : forall c, wf c = true -> closed c = false -> until_
 Proof.
   intros c H Hc. rewrite closed_close1 in Hc by assumption.
   unfold until_close. destruct (head c) eqn:Hh; [reflexivity|]. cbn [negb andb].
-  destruct (clen c) eqn:Ecl; [reflexivity|]. destruct (chunked c) eqn:Ech; [reflexivity|].
+  destruct (has_cl c) eqn:Ecl; [reflexivity|]. destruct (chunked c) eqn:Ech; [reflexivity|].
   rewrite (close1_until c Ecl Ech Hh) in Hc. discriminate.
 Qed.
 
@@ -584,22 +667,50 @@ Proof.
     + intro Hu. rewrite open_not_until_close in Hu by assumption. discriminate.
 Qed.
 
-Lemma chunked_only_11 : forall c, chunked c = true -> v11 c = true /\ head c = false /\ clen c = None.
+(* a connection stays usable whatever is interleaved: HEAD and body-less statuses never end it by themselves *)
+Lemma bodiless_keeps_open : forall c, wf c = true -> close0 c = false -> status c <> 413 ->
+  nobody_status (status c) = true \/ (head c = true /\ has_cl c = true) -> closed c = false.
 Proof.
-  intros c H. unfold chunked in H. destruct (clen c); [discriminate|].
+  intros c H H0 Hs [Hn|[_ Hcl]]; apply keep_alive_kept; try assumption; left; [|assumption].
+  apply sized_has_cl. unfold eff_sized. rewrite Hn. reflexivity.
+Qed.
+
+Lemma chunked_only_11 : forall c, chunked c = true -> v11 c = true /\ head c = false /\ cl_hdr c = None.
+Proof.
+  intros c H. unfold chunked, has_cl in H. destruct (cl_hdr c); [discriminate|].
   destruct (status c =? 413); [discriminate|]. destruct (v11 c), (head c); simpl in H; try discriminate.
   repeat split.
 Qed.
 
-Lemma content_length_exact : forall c n, clen c = Some n ->
-  n = N.of_nat (length (concat (eff_chunks c))).
-Proof. intros c n H. apply (clen_some c n H). Qed.
+Lemma content_length_exact : forall c v, wf c = true -> head c = false -> cl_hdr c = Some v ->
+  lookup k_cl (p_headers (expected c)) = Some v /\
+  undec v = Some (N.of_nat (length (concat (eff_chunks c)))).
+Proof.
+  intros c v H Hh Hv. split.
+  - unfold expected. cbn [p_headers]. rewrite lookup_cl_out. assumption.
+  - apply (cl_len c v H Hh Hv).
+Qed.
+
+(* sized bodies: the server's own count replaces whatever Content-Length the application set *)
+Lemma sized_overrides_app_cl : forall c, eff_sized c = true ->
+  cl_hdr c = Some (dec (N.of_nat (length (concat (eff_chunks c))))).
+Proof. intros c H. unfold cl_hdr. rewrite H. rewrite total_len_concat. reflexivity. Qed.
+
+Lemma set_hdr_in : forall k v h hs, In h hs -> ci_is k (fst h) = false -> In h (set_hdr k v hs).
+Proof.
+  intros k v h hs Hin Hk. unfold set_hdr. apply in_map_iff. exists h. rewrite Hk. split; [reflexivity|assumption].
+Qed.
 
 Lemma expected_app_data : forall c,
-  incl (pre c) (p_headers (expected c)) /\ p_status (expected c) = status c /\
+  (forall h, In h (pre c) -> ci_is k_cl (fst h) = false -> In h (p_headers (expected c))) /\
+  (forall v, In v (cookies c) -> In (str "Set-Cookie", v) (p_headers (expected c))) /\
+  p_status (expected c) = status c /\
   p_body (expected c) = if head c || nobody_status (status c) then [] else concat (chunks c).
 Proof.
-  intro c. unfold expected. cbn [p_headers p_status p_body]. split; [|split; [reflexivity|]].
-  - unfold out_headers. apply incl_appl. apply incl_refl.
+  intro c. unfold expected. cbn [p_headers p_status p_body]. repeat split.
+  - intros h Hin Hk. unfold out_headers. apply in_or_app. left.
+    destruct (eff_sized c); [apply set_hdr_in|]; assumption.
+  - intros v Hin. unfold out_headers. apply in_or_app. right. apply in_or_app. right.
+    apply in_or_app. right. apply in_or_app. left. apply in_map_iff. exists v. split; [reflexivity|assumption].
   - unfold eff_chunks. destruct (head c), (nobody_status (status c)); reflexivity.
 Qed.
